@@ -99,7 +99,8 @@ def locate_functions(run, text):
             mstart, mname = encl[-1]
             if mname not in extract.MODS:
                 continue
-            mtext = text[mstart:off + 1]
+            eol = text.find('\n', off)
+            mtext = text[mstart:(eol if eol >= 0 else len(text))]
             best = None
             for fm in re.finditer(r'\bfn\s+([A-Za-z0-9_]+)', mtext):
                 # real functions only: not inside an inserted region
@@ -142,6 +143,115 @@ def mentions_closure(text, roots):
     return seen
 
 
+def annotation_gaps(text, info, names, degraded):
+    """For each failing function: reasons why its proof may fail for lack of ANNOTATIONS rather than because the code is
+    wrong: (i) it calls a function that is new on this tree and therefore has no contract, (ii) it passes a closure that is
+    new on this tree and has no `ensures`, (iii) it calls a function whose contract was dropped for this run.  A failure with
+    such a reason is reported undecided unless a failing input is found."""
+    def typed_fns(src):
+        """{(impl type or '', fn name)} of a module's plain source"""
+        res = set()
+        spans = []
+        for im in re.finditer(r'\bimpl(?:<[^>]*>)?\s+(?:[A-Za-z0-9_:<>, ]+?\s+for\s+)?([A-Za-z0-9_]+)(?:<[^>{]*>)?\s*(?:where[^{]*)?\{', src):
+            try:
+                e = extract.match_brace(src, im.end() - 1)
+            except Exception:
+                continue
+            spans.append((im.end(), e, im.group(1)))
+        for fm in re.finditer(r'\bfn\s+([A-Za-z0-9_]+)', src):
+            ty = ''
+            for a, b, t in spans:
+                if a <= fm.start() <= b:
+                    ty = t
+            res.add((ty, fm.group(1)))
+        return res
+    base_pairs = set()
+    for mname, bt in info.get('base_text', {}).items():
+        base_pairs |= set((mname,) + x for x in typed_fns(bt))
+    base_fns = set(n for l in info.get('base_fns', {}).values() for n in l)
+    nocontract = set(x.split('::')[-1].split('#')[0] for x in degraded if x.endswith('(no contract)'))
+    mods = [(m.start(), m.group(1)) for m in re.finditer(r'^(?:pub(?:\([a-z]+\))? )?mod (\w+) \{', text, flags=re.M)]
+    real_fns = set()
+    for mname in extract.MODS:
+        st = [x for x in mods if x[1] == mname]
+        if st:
+            nxt = [x[0] for x in mods if x[0] > st[0][0]]
+            seg = extract.strip_generated(text[st[0][0]:(nxt[0] if nxt else len(text))])
+            real_fns.update(re.findall(r'\bfn\s+([A-Za-z0-9_]+)', seg))
+    new_fns = real_fns - base_fns
+    cur_pairs = set()
+    for mname in extract.MODS:
+        st = [x for x in mods if x[1] == mname]
+        if st:
+            nxt = [x[0] for x in mods if x[0] > st[0][0]]
+            cur_pairs |= set((mname,) + x for x in typed_fns(extract.strip_generated(text[st[0][0]:(nxt[0] if nxt else len(text))])))
+    new_pairs = cur_pairs - base_pairs
+    new_fns |= set(x[2] for x in new_pairs)
+    out = {}
+    for n in names:
+        if n.startswith('kani:'):
+            continue
+        parts = n.split('::')
+        mname, short = parts[0], parts[-1].split('__nec_')[0]
+        st = [x for x in mods if x[1] == mname]
+        if not st or mname not in extract.MODS:
+            continue
+        nxt = [x[0] for x in mods if x[0] > st[0][0]]
+        mtext = text[st[0][0]:(nxt[0] if nxt else len(text))]
+        reasons = []
+        if len(parts) >= 2 and ((mname, parts[-2] if len(parts) >= 3 else '', short) in new_pairs):
+            reasons.append('is-itself-new-on-this-tree-and-has-no-contract')
+        for off in extract.fn_occurrences(mtext, short):
+            b = mtext.find('{', off)
+            # the body: from the first real `{` (outside inserted regions) to its match
+            i = off
+            body = None
+            while i < len(mtext):
+                if mtext.startswith(extract.GOPEN, i):
+                    i = mtext.index(extract.GCLOSE, i) + len(extract.GCLOSE)
+                    continue
+                if mtext[i] == '{':
+                    body = i
+                    break
+                if mtext[i] == ';':
+                    break
+                i += 1
+            if body is None:
+                continue
+            try:
+                end = extract.match_brace(mtext, body)
+            except Exception:
+                continue
+            gbody = mtext[body:end + 1]
+            plain = extract.strip_generated(gbody)
+            words = set(re.findall(r'[A-Za-z_][A-Za-z0-9_]*', plain))
+            for w in sorted(words & new_fns):
+                reasons.append('calls-new-function-without-contract:' + w)
+            for w in sorted(words & nocontract):
+                reasons.append('calls-function-whose-contract-was-dropped-this-run:' + w)
+            # closures in real code: `|params|` or `||` not followed by an inserted `ensures`
+            base = re.sub(r'\s+', '', info.get('base_text', {}).get(mname, ''))
+            k = 0
+            while k < len(gbody):
+                if gbody.startswith(extract.GOPEN, k):
+                    k = gbody.index(extract.GCLOSE, k) + len(extract.GCLOSE)
+                    continue
+                mm = re.compile(r'(?<![|&])\|((?:[^|{};]|/\*<<\*/.*?/\*>>\*/)*)\|(?!\|)', re.S).match(gbody, k)
+                prevc = gbody[:k].rstrip()[-1:] if k > 0 else ''
+                if mm and prevc in '(,=' :
+                    after = gbody[mm.end():mm.end() + 400]
+                    annotated = bool(re.match(r'\s*' + re.escape(extract.GOPEN) + r'[^\n]*?ensures', after, flags=re.S)) or 'ensures' in after.split(extract.GCLOSE)[0] and after.lstrip().startswith(extract.GOPEN)
+                    sig = re.sub(r'\s+', '', extract.strip_generated(gbody[k:mm.end() + 60]))[:40]
+                    if not annotated and sig not in base:
+                        reasons.append('passes-a-new-closure-without-ensures:' + sig[:30])
+                    k = mm.end()
+                    continue
+                k += 1
+        if reasons:
+            out[n] = sorted(set(reasons))
+    return out
+
+
 def known_findings(pid):
     out = []
     p = os.path.join(VERIF, 'known_findings.txt')
@@ -175,12 +285,12 @@ def find_failing_input(pid):
         return None
     for pr in probes:
         try:
-            r = subprocess.run([rb, 'probe', pr], capture_output=True, text=True, timeout=600)
+            r = subprocess.run([rb, 'probe', pr], capture_output=True, text=True, timeout=600, env=dict(os.environ, PROBE_PROPERTY=pid))
         except subprocess.TimeoutExpired:
-            return {'probe': pr, 'output': 'TIMEOUT (hang) in probe ' + pr, 'replay_cmd': rb + ' probe ' + pr}
+            return {'probe': pr, 'output': 'TIMEOUT (hang) in probe ' + pr, 'replay_cmd': 'PROBE_PROPERTY=%s %s probe %s' % (pid, rb, pr)}
         if r.returncode != 0:
             lines = [l for l in (r.stdout + r.stderr).splitlines() if 'FAILING-INPUT' in l or 'panicked' in l]
-            return {'probe': pr, 'output': '\n'.join(lines[:5]) or (r.stdout + r.stderr)[-800:], 'replay_cmd': rb + ' probe ' + pr}
+            return {'probe': pr, 'output': '\n'.join(lines[:5]) or (r.stdout + r.stderr)[-800:], 'replay_cmd': 'PROBE_PROPERTY=%s %s probe %s' % (pid, rb, pr)}
     return None
 
 
@@ -253,7 +363,7 @@ def main():
     # verified, and every property that can reach that function is reported undecided (bounded probes decide it).
     degrade = []
     degrade_why = {}
-    for attempt in range(8):
+    for attempt in range(10):
         try:
             text, info = extract.generate(degrade=degrade)
         except Exception as e:
@@ -262,12 +372,18 @@ def main():
         cls = runverus.classify(run)
         if cls != 'tool-error':
             break
-        new = [x for x in locate_functions(run, text) if x not in degrade]
-        if not new:
+        loc = locate_functions(run, text)
+        if not loc:
             break
-        for x in new:
-            degrade_why['%s::%s#%d' % x] = re.sub(r'\s+', '_', (run['diagnostics'][0]['message'] if run['diagnostics'] else '?'))[:160]
-        degrade += new
+        x = loc[0]
+        cur = [d for d in degrade if d[:3] == x]
+        if cur and cur[0][3] >= 2:
+            break
+        if cur:
+            degrade = [d for d in degrade if d[:3] != x] + [x + (2,)]       # the contract does not fit either: drop it as well
+        else:
+            degrade.append(x + (1,))
+        degrade_why['%s::%s#%d' % x] = re.sub(r'\s+', '_', (run['diagnostics'][0]['message'] if run['diagnostics'] else '?'))[:160]
     # Kani harnesses do not depend on the Verus run: a failing complete harness is a violation with a concrete counterexample
     kani = None
     if any(k.startswith('kani') for _, k in obligations.OBLIGATIONS[pid]):
@@ -347,8 +463,10 @@ def main():
     # retried under two more before it is reported (protects against proof instability after harmless edits); the
     # thorough tier always runs them and records which obligations change outcome.  A necessity copy must fail under all.
     stability = None
-    if a.tier == 'thorough' or any(not n.startswith('kani:') and k != 'nec' for n, k in failed):
-        stability = {'seeds': [], 'changed_outcome': []}
+    retry = [n for n, k in failed if not n.startswith('kani:') and k != 'nec']
+    if a.tier == 'thorough':
+        # whole file under two more seeds: which obligations change outcome
+        stability = {'seeds': [], 'changed_outcome': [], 'mode': 'whole file'}
         for sd in (seed * 2 + 1, seed * 2 + 2):
             r2 = runverus.run_verus_on_text(text, 'coset_verus', ['--smt-option', 'smt.random_seed=%d' % sd])
             if runverus.classify(r2) == 'tool-error':
@@ -363,10 +481,37 @@ def main():
                         stability['changed_outcome'].append(n)
                     if t2[n]['success']:
                         tab[n] = dict(t2[n], proved_under_seed=sd)
-        failed = [(n, k) for n, k in obl if not ok(n, k)]
+    elif retry and len(retry) <= 8:
+        # quick tier: only the failing functions, one Verus run each per seed
+        stability = {'seeds': [], 'changed_outcome': [], 'mode': 'failing functions only'}
+        for n in retry:
+            parts = n.split('::')
+            for sd in (seed * 2 + 1, seed * 2 + 2):
+                r2 = runverus.run_verus_on_text(text, 'coset_verus', ['--verify-only-module', parts[0], '--verify-function', '::'.join(parts[1:]), '--smt-option', 'smt.random_seed=%d' % sd])
+                t2 = runverus.function_table(r2)
+                stability['seeds'].append({'seed': sd, 'function': n, 'wall_s': r2['wall_s'], 'cached': r2['cached']})
+                if n in t2 and t2[n]['success']:
+                    tab[n] = dict(t2[n], proved_under_seed=sd)
+                    stability['changed_outcome'].append(n)
+                    break
+    failed = [(n, k) for n, k in obl if not ok(n, k)]
+    # C01 is about panics, aborts and non-termination only: a function other than a decoder that fails NOTHING BUT
+    # postconditions (its functional contract) still cannot panic - every callee precondition, index, arithmetic and
+    # termination obligation in it was discharged - so such a failure belongs to the functional properties, not to C01.
+    # (Decoders are excluded: C01's second clause rests on their result relations.)
+    not_relevant = []
+    if pid in getattr(obligations, 'SAFETY_ONLY', {}):
+        keep = obligations.SAFETY_ONLY[pid]
+        for n, k in list(failed):
+            if k != 'body' or n.startswith('kani:') or any(fnmatch.fnmatchcase(n, pat) for pat in keep):
+                continue
+            ds = diag_for(run, text, [n])
+            if ds and all(d['message'].startswith('postcondition not satisfied') for d in ds):
+                not_relevant.append(n)
+        failed = [(n, k) for n, k in failed if n not in not_relevant]
     rlimit_hit = [d for d in run['diagnostics'] if 'rlimit' in d['message'] or 'Resource limit' in d['message']]
     discharged = len(obl) - len(failed)
-    per = [{'obligation': n, 'kind': k, 'backend': ('kani/cbmc complete' if k == 'kani' else 'kani/cbmc ' + k[5:] if k.startswith('kani') else 'verus/z3'), 'discharged': ok(n, k), 'expect': ('fail' if k == 'nec' else 'pass'),
+    per = [{'obligation': n, 'kind': k, 'backend': ('kani/cbmc complete' if k == 'kani' else 'kani/cbmc ' + k[5:] if k.startswith('kani') else 'verus/z3'), 'discharged': ok(n, k) or n in not_relevant, 'expect': ('fail' if k == 'nec' else 'pass'),
             'time_ms': tab[n]['time_us'] // 1000, 'rlimit': tab[n]['rlimit']} for n, k in obl]
     cov = {
         'obligations': len(obl), 'discharged': discharged,
@@ -380,6 +525,7 @@ def main():
         'inputs_sha256': info['inputs'], 'generated_sha256': info['generated_sha256'],
         'rewrites_applied': info['rewrites'], 'merge': info['merge'],
         'solver_stability': stability,
+        'functional_only_failures_not_counted_for_this_property': not_relevant,
         'degraded_functions': [{'function': k, 'reason': v, 'effect': 'body not processed by the verifier on this tree; contract assumed for this run; no obligation of this property can reach it'} for k, v in degrade_why.items()],
         'samples': [{'obligation': n, 'kind': k} for n, k in obl[:5]],
         'bounded': [n for n, k in obl if k.startswith('kani-bounded')] + ['replay:' + m for m in getattr(obligations, 'MEASUREMENTS', {}).get(pid, [])],
@@ -394,9 +540,12 @@ def main():
     cov['contract_anchors_lost_in'] = sorted(lost_in)
     if failed:
         names = [n for n, k in failed]
-        unsure = [n for n in names if not n.startswith('kani:') and n.split('::')[-1].split('__nec_')[0] in lost_in]
+        gaps = annotation_gaps(text, info, names, degraded)
+        cov['annotation_gaps'] = gaps
+        unsure = [n for n in names if not n.startswith('kani:') and (n.split('::')[-1].split('__nec_')[0] in lost_in or n in gaps)]
         if unsure and len(unsure) == len(names):
-            return undecided('contract-anchor-lost-and-proof-of-changed-code-failed-in:' + ','.join(unsure)[:150], cov)
+            why = ';'.join('%s:%s' % (n.split('::')[-1], '+'.join(gaps[n])[:80]) for n in unsure if n in gaps)
+            return undecided(('contract-anchor-lost-or-annotation-gap-and-proof-of-changed-code-failed-in:' + ','.join(unsure) + ((':' + why) if why else ''))[:400], cov)
         ds = diag_for(run, text, names)
         if rlimit_hit and all(any(('rlimit' in d['message'] or 'Resource limit' in d['message']) for d in diag_for(run, text, [n])) for n in names):
             return undecided('resource-limit-in:' + ','.join(names)[:150], cov)
